@@ -258,6 +258,20 @@ pub fn render_content(c: &AContent, out: &mut String, cdata: &mut dyn FnMut() ->
         AContent::Elem(e) => render_elem(e, out, cdata),
         AContent::Text(t) => {
             if !t.contains("]]>") && cdata() {
+                // one text node, written as character data next to a CDATA section (the parser has
+                // to consolidate the pieces) or as one CDATA section
+                let chars: Vec<char> = t.chars().collect();
+                if chars.len() >= 2 && cdata() {
+                    let mid = chars.len() / 2;
+                    let (a, b): (String, String) = (chars[..mid].iter().collect(), chars[mid..].iter().collect());
+                    if !a.ends_with(']') {
+                        esc_text(&a, out);
+                        out.push_str("<![CDATA[");
+                        out.push_str(&b);
+                        out.push_str("]]>");
+                        return;
+                    }
+                }
                 out.push_str("<![CDATA[");
                 out.push_str(t);
                 out.push_str("]]>");
